@@ -241,7 +241,12 @@ func OneOf[T any](c *Case, label string, vals ...T) T {
 func (c *Case) Bytes(label string, n int) []byte {
 	seed := c.Uint64(label)
 	out := make([]byte, n)
+	// Mix in the label so that two draws with equal seeds (0 is a frequent
+	// value and the shrink target) still give unrelated contents.
 	x := seed
+	for i := 0; i < len(label); i++ {
+		x = splitmix(x ^ uint64(label[i]))
+	}
 	for i := 0; i < n; i += 8 {
 		x = splitmix(x)
 		for j := 0; j < 8 && i+j < n; j++ {
